@@ -5,6 +5,7 @@ package main
 
 import (
 	"fmt"
+	"regexp"
 	"runtime/debug"
 	"sort"
 	"strings"
@@ -185,6 +186,8 @@ func (w *worker) runPath(spec *harnessSpec, cfg *runConfig, prefix []choiceRec) 
 	return res
 }
 
+var objIDRe = regexp.MustCompile(`#[0-9]+`)
+
 func violationSig(v *violationRec) string {
 	// the failing site: message + innermost /repo frames
 	st := v.Stack
@@ -194,7 +197,8 @@ func violationSig(v *violationRec) string {
 			st = st[:i+4+j]
 		}
 	}
-	msg := v.Msg
+	msg := objIDRe.ReplaceAllString(v.Msg, "#N") // object ids depend on what a worker initialised earlier
+	st = objIDRe.ReplaceAllString(st, "#N")
 	if len(msg) > 160 {
 		msg = msg[:160]
 	}
